@@ -49,6 +49,8 @@ def ws2dwcv(y, nodata, llas, robust, out, lopt):
     d_eigs[0] = 1e-15
 
     if n > 4:
+        # cells without weight must not reach the solver (0 * nan = nan)
+        y = np.where(w == 0, 0.0, y)
         z = np.zeros(m)
         r_weights = np.ones(m)
 
